@@ -5,5 +5,8 @@ CONSTANTS
   MaxFaults = 1
   K = 2
   ByName = FALSE
+  SkipPingWhenBusy = FALSE
+  KeyByIdentity = FALSE
 INVARIANT Converges
+INVARIANT Refreshed
 CHECK_DEADLOCK FALSE
